@@ -9,6 +9,7 @@
 -/
 import VotelibProofs.Lemmas.HAStrict
 import VotelibProofs.Lemmas.HAUnique
+import VotelibProofs.Lemmas.HAList
 import VotelibModel.Gen.Divisor
 import Mathlib.Tactic.Ring
 import Mathlib.Tactic.NormNum
@@ -247,6 +248,17 @@ theorem ha_is_the_unique_solution (cfg : HACfg) (hd : (∀ k, 0 < cfg.div k) ∧
   have h : CfgOK cfg := cfgOK_of_divisor cfg hd (fun p hp => le_of_lt (hv p hp)) hn
   exact ⟨haSeats_isSolution cfg h hcaps hnotie hrem,
     fun a ha => ha_unique cfg h (strictQ_of cfg hd.1 hd.2 hn hv) hcaps hnotie hrem a ha⟩
+
+/-- **The sorted-list implementation refines the pool machine.**  `halRun` models the code's real data structure (an
+    ascending list, the maximal run taken from its tail, pop + `bisect_left` re-insertion, `VotelibModel/HighestAveragesList.lean`);
+    it ends with the same totals and the same tie (members up to order) as the pool machine about which the clauses above
+    are proved — so every theorem of this file transfers to the list machine. -/
+theorem list_machine_refines (cfg : HACfg) (h : CfgOK cfg) :
+    (∀ c, (halRun cfg).tot c = (haRun cfg).tot c) ∧ (halRun cfg).rem = (haRun cfg).rem ∧
+    (((haRun cfg).tie = none ∧ (halRun cfg).tie = none) ∨
+      ∃ T₁ T₂ m, (haRun cfg).tie = some (T₁, m) ∧ (halRun cfg).tie = some (T₂, m) ∧ T₁.Perm T₂) := by
+  have hr := halRun_refines cfg h
+  exact ⟨fun c => (congrFun hr.tot c).symm, hr.rem.symm, hr.tie⟩
 
 /-- Witness for the recorded finding `C01-nonstrict-first-coef`: with `modified_first_coef d_hondt 2` the divisor
     sequence 2, 2, 3, … is not strictly increasing; party 1 is left waiting with a quotient equal to that of a seat
